@@ -98,3 +98,44 @@ func hFold(f func(acc, x int) (int, bool), xs []int) (int, int) {
 	}
 	return acc, n
 }
+
+// hGoSafe calls f(i) on a fresh (foreign) goroutine each time, one after the other; a panic that escapes
+// from f into this compiled frame is recovered HERE and reported in the result.
+func hGoSafe(f func(int) int, n int) []string {
+	r := make([]string, n)
+	for i := 0; i < n; i++ {
+		done := make(chan struct{})
+		go func(i int) {
+			defer close(done)
+			defer func() {
+				if e := recover(); e != nil {
+					r[i] = fmt.Sprint("ESCAPED: ", e)
+				}
+			}()
+			r[i] = fmt.Sprint(f(i))
+		}(i)
+		<-done
+	}
+	return r
+}
+
+// hGoMany runs all callbacks one after the other on ONE new (foreign) goroutine.
+func hGoMany(fs []func() string) []string {
+	r := make([]string, len(fs))
+	done := make(chan struct{})
+	go func() {
+		defer close(done)
+		for i, f := range fs {
+			func() {
+				defer func() {
+					if e := recover(); e != nil {
+						r[i] = fmt.Sprint("ESCAPED: ", e)
+					}
+				}()
+				r[i] = f()
+			}()
+		}
+	}()
+	<-done
+	return r
+}
